@@ -88,10 +88,10 @@ if not hasattr(pd.DataFrame, "iteritems"):
 # ForecastingHorizon is iterated in a few places (pandas 1.x made the wrapper iterable through
 # __getitem__; pandas 2 raises a different error) -- patched right after the module is loaded.
 import importlib.abc, importlib.util
+_POST = {}
 class _PostImport(importlib.abc.MetaPathFinder):
-    _target = "sktime.forecasting.base._fh"
     def find_spec(self, name, path, target=None):
-        if name != self._target:
+        if name not in _POST:
             return None
         sys.meta_path.remove(self)
         try:
@@ -102,12 +102,33 @@ class _PostImport(importlib.abc.MetaPathFinder):
             return None
         loader = spec.loader
         orig = loader.exec_module
-        def exec_module(module, _orig=orig):
+        def exec_module(module, _orig=orig, _name=name):
             _orig(module)
-            if not hasattr(module.ForecastingHorizon, "__iter__"):
-                module.ForecastingHorizon.__iter__ = lambda self: iter(self.to_pandas())
+            _POST[_name](module)
         loader.exec_module = exec_module
         return spec
+def _post_fh(module):
+    if not hasattr(module.ForecastingHorizon, "__iter__"):
+        module.ForecastingHorizon.__iter__ = lambda self: iter(self.to_pandas())
+_POST["sktime.forecasting.base._fh"] = _post_fh
 sys.meta_path.insert(0, _PostImport())
 import warnings as _w
 _w.filterwarnings("ignore")
+
+# sklearn.metrics._regression._check_reg_targets: 0.24 signature (y_true, y_pred, multioutput, dtype) -> 4-tuple;
+# mean_squared_error(squared=...).  Only the names imported into sktime's metrics module are replaced.
+import inspect as _inspect
+import sklearn.metrics._regression as _reg
+import sklearn.metrics as _skm
+def _post_metrics(module):
+    if "sample_weight" in _inspect.signature(_reg._check_reg_targets).parameters:
+        def _check_reg_targets(y_true, y_pred, multioutput, dtype="numeric"):
+            out = _reg._check_reg_targets(y_true, y_pred, None, multioutput, dtype=dtype)
+            return out[0], np.asarray(out[1]), np.asarray(out[2]), out[-1]
+        module._check_reg_targets = _check_reg_targets
+    if "squared" not in _inspect.signature(_skm.mean_squared_error).parameters:
+        def _mean_squared_error(y_true, y_pred, *, sample_weight=None, multioutput="uniform_average", squared=True):
+            r = _skm.mean_squared_error(y_true, y_pred, sample_weight=sample_weight, multioutput=multioutput)
+            return r if squared else np.sqrt(r)
+        module._mean_squared_error = _mean_squared_error
+_POST["sktime.performance_metrics.forecasting._functions"] = _post_metrics
